@@ -286,6 +286,7 @@ class Interp:
         self.unmodelled = set()
         self.models_used = set()
         self.fns_analysed = set()
+        self.loop_hook = None       # callable(interp, st, frame, cfg, head): rule-specific loop-head abstraction
         self.invariants = {}        # adt path -> callable(st, StructV): constrain field ranges (type invariants)
 
     def apply_invariants(self, st, v):
@@ -823,6 +824,9 @@ class Interp:
         else:
             raise InterpError('binop %s' % op)
         if is_float:
+            c = r.const_value()
+            if c is not None and x.const_value() is not None and y.const_value() is not None:
+                r = Poly.const(round_float(c, ty['n']))
             return Num(r, ty['n'])
         lo_t, hi_t = INT_RANGES[ty['n']]
         if with_ovf:
@@ -1111,7 +1115,10 @@ class Interp:
                     st.status = 'loopback'
                     return 'stop'
                 fr.entered_loops.add(target)
-                self.havoc_loop(st, fr, cfg, target)
+                if self.loop_hook is not None:
+                    self.loop_hook(self, st, fr, cfg, target)
+                else:
+                    self.havoc_loop(st, fr, cfg, target)
         fr.bb = target
         return None
 
@@ -1159,6 +1166,16 @@ class Interp:
             return Num(Poly.atom(a), v.ty)
         if isinstance(v, BoolV):
             return BoolV(B(('sym', st.fresh_name(tag))))
+        if isinstance(v, StructV) and v.path.endswith('ops::range::Range') and 'start' in v.names and 'end' in v.names:
+            # Range::next only ever increases `start` up to `end`
+            s0, e0 = v.get('start'), v.get('end')
+            if isinstance(s0, Num) and isinstance(e0, Num):
+                lo, _ = st.ctx.rng(s0.term)
+                _, hi = st.ctx.rng(e0.term)
+                a = ('sym', st.fresh_name(tag + '.range_start'))
+                st.ctx.ranges[a] = (lo, hi)
+                st.ctx.int_atoms.add(a)
+                return StructV(v.path, v.names, [Num(Poly.atom(a), s0.ty) if n == 'start' else f for n, f in zip(v.names, v.fields)], v.targs)
         if isinstance(v, StructV):
             return StructV(v.path, v.names, [self.havoc_value(st, f, tag) for f in v.fields], v.targs)
         if isinstance(v, TupleV):
@@ -1523,6 +1540,23 @@ class Interp:
                     raise InterpError('terminator %s in closure' % k)
         finally:
             st.frames = saved
+
+
+def round_float(c, n):
+    """round an exact rational to the nearest f32/f64 (constant folding follows IEEE semantics)"""
+    import struct
+    try:
+        f = float(c)   # nearest f64 (correctly rounded for Fractions)
+    except OverflowError:
+        return c
+    if n == 'f32':
+        try:
+            f = struct.unpack('<f', struct.pack('<f', f))[0]
+        except OverflowError:
+            return c
+        if f in (float('inf'), float('-inf')):
+            return c
+    return Fr(f)
 
 
 def _fmt(x):
